@@ -352,21 +352,23 @@ def sem_cc(A, op, args):
 class Env(object):
     """valuation: identifiers, locations and memory (one byte map per address width)"""
 
-    def __init__(self, A, big_endian=False):
+    def __init__(self, A, big_endian=False, id_name=None, mem_name=None):
         self.A = A
         self.ids = {}
         self.mems = {}
         self.big_endian = big_endian
         self.divisors = []        # (value, width) of every divisor met: SPEC is defined when all are non-zero
+        self.id_name = id_name or (lambda name, w: "id_%s_%d" % (_mangle(str(name)), w))
+        self.mem_name = mem_name or (lambda aw: "mem_%d" % aw)
 
     def ident(self, name, w):
         key = (name, w)
         v = self.ids.get(key)
         if v is None:
             if self.A is BV:
-                v = z3.BitVec("id_%s_%d" % (_mangle(str(name)), w), w)
+                v = z3.BitVec(self.id_name(name, w), w)
             else:
-                v = SymInt(("var", "id_%s_%d" % (_mangle(str(name)), w), "I", 0, (1 << w) - 1))
+                v = SymInt(("var", self.id_name(name, w), "I", 0, (1 << w) - 1))
             self.ids[key] = v
         return v
 
@@ -374,10 +376,10 @@ class Env(object):
         if self.A is BV:
             m = self.mems.get(aw)
             if m is None:
-                m = z3.Array("mem_%d" % aw, z3.BitVecSort(aw), z3.BitVecSort(8))
+                m = z3.Array(self.mem_name(aw), z3.BitVecSort(aw), z3.BitVecSort(8))
                 self.mems[aw] = m
             return z3.Select(m, addr)
-        return mk_int("mod", UF("mem_%d" % aw, addr), 256)
+        return mk_int("mod", UF(self.mem_name(aw), addr), 256)
 
 
 def sem(expr, env):
